@@ -3,7 +3,7 @@ from __future__ import annotations
 
 import ast
 
-from ..astu import (U, dotted, walk_shallow, fold, NotLiteral, fold_module_tables, linform, monomial,
+from ..astu import (U, has, dotted, walk_shallow, fold, NotLiteral, fold_module_tables, linform, monomial,
                     mono_str, call_name, kwarg, calls_in, names_in)
 from ..cfg import find_guards
 from ..core import AnalysisError, Mutant, Rule, Twin
@@ -448,6 +448,41 @@ def r5_charge_signs(ctx):
               "the charge part must be re-prefixed with its own sign token (parts[1] = token + parts[1])", node=fp)
 
 
+def r6_affixes(ctx):
+    """prefix/suffix stripping removes exactly the matched affix; the leading hydrate count is split off exactly"""
+    fp = ctx.func(PARSING, "_formula_to_parts")
+    a = PARSING + ":_formula_to_parts"
+    facts = {}
+    for lp in for_loops(fp):
+        src = U(lp.iter)
+        v = target_names(lp.target)[0] if target_names(lp.target) else None
+        for n in walk_shallow(lp):
+            if isinstance(n, ast.If) and isinstance(n.test, ast.Call) and isinstance(n.test.func, ast.Attribute) and n.test.func.attr in ("startswith", "endswith") \
+                    and U(n.test.args[0]) == v:
+                kind = n.test.func.attr
+                subj = U(n.test.func.value)
+                sl = [b for b in n.body if isinstance(b, ast.Assign) and U(b.targets[0]) == subj]
+                facts[kind] = (src, subj, U(sl[0].value) if sl else None, v)
+    sw, ew = facts.get("startswith"), facts.get("endswith")
+    ctx.check(sw is not None and sw[0] == "prefixes" and sw[2] == "%s[len(%s):]" % (sw[1], sw[3]), a, "prefix-removed-exactly",
+              "a matched prefix must be removed as formula[len(prefix):]; found %s" % (sw,), node=fp)
+    ctx.check(ew is not None and ew[0] == "suffixes" and ew[2] == "%s[:-len(%s)]" % (ew[1], ew[3]), a, "suffix-removed-exactly",
+              "a matched suffix must be removed as formula[:-len(suffix)]; found %s" % (ew,), node=fp)
+    ret = [n for n in walk_shallow(fp) if isinstance(n, ast.Return)][-1]
+    ctx.check(has(ret.value, "parts + [tuple(drop_pref), tuple(drop_suff[::-1])]", scope=fp), a, "parts-layout", "the result must be [stoichiometry, charge, prefixes, suffixes (in written order)]", node=ret)
+    ctx.check(has(fp, "parts = [formula, None]"), a, "no-charge->None", "without a sign token the charge part must be None", node=fp)
+    fc = ctx.func(PARSING, "formula_to_composition")
+    ctx.check(has(fc, "stoich_tok, chg_tok = _formula_to_parts(formula, prefixes, suffixes)[:2]"), PARSING + ":formula_to_composition", "stoich,charge=parts[:2]", "stoichiometry and charge must be the first two parts", node=fc)
+    ctx.check(has(fc, "if prefixes is None: prefixes = _latex_mapping.keys()"), PARSING + ":formula_to_composition", "default-prefixes", "the default prefixes must be the keys of the prefix table (greek-, '.')", node=fc)
+    li = ctx.func(PARSING, "_get_leading_integer")
+    a2 = PARSING + ":_get_leading_integer"
+    pat = [c for c in calls_in(li) if call_name(c) == "re.findall"]
+    ok = len(pat) == 1 and isinstance(pat[0].args[0], ast.Constant) and pat[0].args[0].value in (r"^\d+", "^[0-9]+")
+    ctx.check(ok, a2, "leading-digits-pattern", "the leading count must be matched by ^\\d+; found %s" % (U(pat[0].args[0]) if pat else None), node=li)
+    ctx.check(has(li, "s = s[len(m[0]):]") and has(li, "m = int(m[0])") and has(li, "return m, s"), a2, "count-split-off", "the count must be int(match) and the remainder s[len(match):]", node=li)
+    ctx.check(has(li, "if len(m) == 0: m = 1"), a2, "missing-count=1", "a missing leading count means 1", node=li)
+
+
 def sweep_offsets(ctx):
     """thorough: Z<->index offsets in the rest of the package (NOTE only)."""
     for m in ctx.repo.all_modules():
@@ -468,6 +503,7 @@ RULES = [
     Rule("C01-R3", r3_no_truncation, 5, "parseAll=True at every parseString; contradictory charge marks raise"),
     Rule("C01-R4", r4_multipliers, 8, "hydrate-part and group multipliers multiply every element count; counts summed"),
     Rule("C01-R5", r5_charge_signs, 5, "charge sign table, signed magnitude, key 0"),
+    Rule("C01-R6", r6_affixes, 9, "prefix/suffix stripping and leading hydrate count are exact"),
     Rule("C01-S1", sweep_offsets, 1, "package-wide offset sweep (notes only)", tier="thorough"),
 ]
 
@@ -491,6 +527,12 @@ MUTANTS = [
     Mutant("bare-minus-positive", [(PARSING, '    elif chgstr == "-":\n        return -1', '    elif chgstr == "-":\n        return 1')], "C01-R5", "bare-sign"),
     Mutant("charge-under-key-1", [(PARSING, "tot_comp[0] = _get_charge(chg_tok)", "tot_comp[1] = _get_charge(chg_tok)")], "C01-R4", "charge-under-key-0"),
     Mutant("sign-dropped", [(PARSING, 'return sign * int(1 if after == "" else after)', 'return int(1 if after == "" else after)')], "C01-R5", "signed-magnitude"),
+]
+
+MUTANTS += [
+    Mutant("suffix-strip-off-by-one", [(PARSING, "            formula = formula[: -len(ign)]", "            formula = formula[: -len(ign) + 1]")], "C01-R6", "suffix"),
+    Mutant("prefix-strip-one-char", [(PARSING, "            formula = formula[len(ign) :]", "            formula = formula[1:]")], "C01-R6", "prefix"),
+    Mutant("leading-count-single-digit", [(PARSING, 'm = re.findall(r"^\\d+", s)', 'm = re.findall(r"^\\d", s)')], "C01-R6", "leading-digits"),
 ]
 
 TWINS = [
